@@ -235,3 +235,113 @@ Definition fresh_root (s : config) : root := m_root (g_disk s).
 Definition fresh_has (s : config) (x : chunk) : bool :=
   existsb (fun t => mem_t t (g_files s) && in_table x t) (m_specs (g_disk s)).
 Definition fresh_opens (s : config) : bool := subset_t (m_specs (g_disk s)) (g_files s).
+
+(* ====================================================================== *)
+(* Journaling store (NewLocalJournalingStore): the SAME NomsBlockStore
+   commit / updateManifest code over ChunkJournal as persister and manifest.
+   The store holds the exclusive LOCK for its whole lifetime (newJournalLock):
+   there is exactly one writer; a second handle opens read-only and every
+   Persist / Update of it answers errReadOnlyManifest.
+
+   ChunkJournal.Persist appends the memtable's chunks (those the client's
+   tables do not have) to the journal and returns the journalChunkSource,
+   whose name is the constant journalAddr and which shows EVERY chunk of the
+   journal.  ChunkJournal.Update (journal.go:406): gcGen must be unchanged
+   (constant here), j.contents.lock <> lastLock -> return j.contents; else, if
+   the spec set changed, flushToBackingManifest; commitRootHash(next.root)
+   (appends the root record, flushes and syncs the journal); j.contents = next.
+   The lock is (root, journal-table-named?). The backing manifest file lags
+   (it is trued-up on Close / bootstrap) and is not part of this model: the
+   persisted root of a journaling store is the journal's last root record. *)
+Record jstate := {
+  j_root : root; j_spec : bool;          (* j.contents: root, "specs name the journal" *)
+  j_wr : bool;                           (* journal file / writer exists *)
+  j_chunks : list chunk;                 (* chunk records of the journal *)
+  j_up : root * bool;                    (* the writer's nbs.upstream (root, names journal) *)
+  j_novel : bool;                        (* tables.novel holds the journalChunkSource *)
+  j_mem : option (list chunk);
+  j_puts : list chunk }.                 (* ghost: chunks Put since the store was opened *)
+
+Definition jinit : jstate :=
+  {| j_root := 0; j_spec := false; j_wr := false; j_chunks := []; j_up := (0, false);
+     j_novel := false; j_mem := None; j_puts := [] |}.
+
+Definition mem_n (x : N) (l : list N) : bool := existsb (N.eqb x) l.
+Definition jtables_have (s : jstate) (x : chunk) : bool := (j_novel s || snd (j_up s)) && mem_n x (j_chunks s).
+
+Inductive jstep :=
+| JPut (x : chunk) | JRebase | JCommit (cur last : root)
+| JReopen                (* graceful Close, then NewLocalJournalingStore again *)
+| JProbe.                (* a second handle while the writer is open *)
+
+(* results: RNone here = "manifest.Update found a foreign lock", impossible with one writer (Proofs.j_never_stale) *)
+Definition jflush (s : jstate) : jstate :=
+  match j_mem s with
+  | None | Some [] => s
+  | Some l =>
+    let w := filter (fun x => negb (jtables_have s x)) l in
+    {| j_root := j_root s; j_spec := j_spec s; j_wr := true; j_chunks := j_chunks s ++ w; j_up := j_up s;
+       j_novel := true; j_mem := None; j_puts := j_puts s |}
+  end.
+
+Definition jput (x : chunk) (s : jstate) : jstate :=
+  let m := match j_mem s with
+           | None => [x]
+           | Some l => if mem_n x l then l else l ++ [x]
+           end in
+  {| j_root := j_root s; j_spec := j_spec s; j_wr := j_wr s; j_chunks := j_chunks s; j_up := j_up s;
+     j_novel := j_novel s; j_mem := Some m; j_puts := x :: j_puts s |}.
+
+Definition jset_up (s : jstate) (u : root * bool) (novel : bool) : jstate :=
+  {| j_root := j_root s; j_spec := j_spec s; j_wr := j_wr s; j_chunks := j_chunks s; j_up := u;
+     j_novel := novel; j_mem := j_mem s; j_puts := j_puts s |}.
+
+Definition lockb (a b : root * bool) : bool := (fst a =? fst b) && Bool.eqb (snd a) (snd b).
+
+Definition jany_novel (s : jstate) : bool :=
+  match j_mem s with Some _ => true | None => false end || j_novel s.
+
+(* Commit(cur,last) as one step (nobody else can act on a journaling store) *)
+Definition jcommit (cur last : root) (s : jstate) : jstate * result :=
+  if negb (jany_novel s) && (cur =? last) then (jset_up s (j_root s, j_spec s) (j_novel s), ROk)    (* shortcut: rebase, true *)
+  else if negb (fst (j_up s) =? last) then (s, RFalse)
+  else
+    let s1 := jflush s in
+    if negb (cur =? 0) && negb (jtables_have s1 cur) then (s1, RDangling)
+    else
+      let new := (cur, j_novel s1 || snd (j_up s1)) in
+      if negb (lockb (j_root s1, j_spec s1) (j_up s1)) then (s1, RNone)
+      else ({| j_root := cur; j_spec := snd new; j_wr := j_wr s1; j_chunks := j_chunks s1; j_up := new;
+               j_novel := false; j_mem := j_mem s1; j_puts := j_puts s1 |}, ROk).
+
+(* Close (flushes the journal; flushToBackingManifest(j.contents) fails with
+   "Lock hash cannot be empty" when the journal exists but nothing was ever
+   committed) and reopen: the memtable is gone, the journal's chunks and last
+   root record are what the new writer starts from. *)
+Definition jreopen (s : jstate) : jstate * result :=
+  ({| j_root := j_root s; j_spec := j_spec s; j_wr := j_wr s; j_chunks := j_chunks s;
+      j_up := (j_root s, j_spec s); j_novel := false; j_mem := None; j_puts := [] |},
+   if j_wr s && negb (j_spec s) then RDangling (* stands for "close error" in this position *) else ROk).
+
+Definition jstep_fn (s : jstate) (st : jstep) : jstate * result :=
+  match st with
+  | JPut x => (jput x s, ROk)
+  | JRebase => (jset_up s (j_root s, j_spec s) (j_novel s), ROk)
+  | JCommit cur last => jcommit cur last s
+  | JReopen => jreopen s
+  | JProbe => (s, RBlocked)            (* read-only handle: its Commit answers errReadOnlyManifest, nothing changes *)
+  end.
+
+Fixpoint jfinal (s : jstate) (sc : list jstep) : jstate :=
+  match sc with [] => s | st :: rest => jfinal (fst (jstep_fn s st)) rest end.
+
+Record jevent := { je_step : jstep; je_res : result; je_before : jstate; je_after : jstate }.
+Fixpoint jtrace (s : jstate) (sc : list jstep) : list jevent :=
+  match sc with
+  | [] => []
+  | st :: rest => let '(s', r) := jstep_fn s st in
+                  {| je_step := st; je_res := r; je_before := s; je_after := s' |} :: jtrace s' rest
+  end.
+
+(* what a fresh journaling open sees *)
+Definition jfresh_has (s : jstate) (x : chunk) : bool := j_spec s && mem_n x (j_chunks s).
